@@ -83,12 +83,22 @@ theorem splitTag_some (f t v : Bytes) (h : splitTag f = some (t, v)) : f = t ++ 
     rw [hg] at this
     exact this
 
-structure Shape (bl cs d : Bytes) where
+theorem joinB_soh' : ∀ L : List Bytes, L ≠ [] → ∃ B0, joinF L = B0 ++ [SOH]
+  | [], h => absurd rfl h
+  | [a], _ => ⟨a, by simp [joinF]⟩
+  | a :: b :: rest, _ => by
+    obtain ⟨B0, h⟩ := joinB_soh' (b :: rest) (by simp)
+    exact ⟨a ++ SOH :: B0, by rw [joinF, h]; simp⟩
+
+structure Shape (bs bl cs d : Bytes) where
   f0 : Bytes
   f1 : Bytes
+  v0 : Bytes
   v1 : Bytes
   B : Bytes
   vl : Bytes
+  tag0 : splitTag f0 = some (bs, v0)
+  bterm : B = [] ∨ ∃ B0, B = B0 ++ [SOH]
   eq : d = f0 ++ SOH :: f1 ++ SOH :: B ++ (cs ++ EQ :: vl ++ [SOH])
   f0_soh : SOH ∉ f0
   f1_soh : SOH ∉ f1
@@ -96,7 +106,7 @@ structure Shape (bl cs d : Bytes) where
   len : atoi v1 = some (B.length : Int)
   sum : vl = pad3 (natDigits (sumBytes (f0 ++ SOH :: f1 ++ SOH :: B) % 256))
 
-theorem integrityOK_shape (bs bl cs d : Bytes) (h : integrityOK bs bl cs d = true) : Nonempty (Shape bl cs d) := by
+theorem integrityOK_shape (bs bl cs d : Bytes) (h : integrityOK bs bl cs d = true) : Nonempty (Shape bs bl cs d) := by
   unfold integrityOK at h
   cases hw : wireFields d with
   | none => simp [hw] at h
@@ -127,8 +137,8 @@ theorem integrityOK_shape (bs bl cs d : Bytes) (h : integrityOK bs bl cs d = tru
         obtain ⟨t1, v1⟩ := p1
         obtain ⟨tl, vl⟩ := pl
         simp only [h0, h1, hl, Bool.and_eq_true, beq_iff_eq] at h
-        obtain ⟨⟨⟨⟨_, ht1⟩, htl⟩, hlen⟩, hsum⟩ := h
-        subst ht1 htl
+        obtain ⟨⟨⟨⟨ht0, ht1⟩, htl⟩, hlen⟩, hsum⟩ := h
+        subst ht0 ht1 htl
         have hfl := splitTag_some fl _ _ hl
         have hdd : d = f0 ++ SOH :: f1 ++ SOH :: joinF r.reverse ++ (tl ++ EQ :: vl ++ [SOH]) := by
           rw [hd, hrest, hfl]
@@ -139,7 +149,14 @@ theorem integrityOK_shape (bs bl cs d : Bytes) (h : integrityOK bs bl cs d = tru
           rw [hbefore]
           conv => lhs; rw [hdd]
           rw [List.take_append_of_le_length (Nat.le_refl _), List.take_length]
-        refine ⟨{ f0 := f0, f1 := f1, v1 := v1, B := joinF r.reverse, vl := vl, eq := hdd,
+        have hbterm : joinF r.reverse = [] ∨ ∃ B0, joinF r.reverse = B0 ++ [SOH] := by
+          cases hrr : r.reverse with
+          | nil => exact Or.inl rfl
+          | cons a as =>
+            right
+            obtain ⟨B0, hB0⟩ := joinB_soh' (a :: as) (by simp)
+            exact ⟨B0, hB0⟩
+        refine ⟨{ f0 := f0, f1 := f1, v0 := v0, v1 := v1, B := joinF r.reverse, vl := vl, eq := hdd, tag0 := h0, bterm := hbterm,
                   f0_soh := hs f0 (by simp), f1_soh := hs f1 (by simp), tag1 := h1, len := ?_, sum := ?_ }⟩
         · rw [hlen, hbefore]
           simp; omega
@@ -149,14 +166,14 @@ theorem cksum_len (x : Nat) : (pad3 (natDigits (x % 256))).length = 3 :=
   pad3_length _ (natDigits_length_le3 _ (by have := Nat.mod_lt x (by decide : 0 < 256); omega))
 
 /-- the part of a shaped string before the CheckSum field -/
-def Shape.A {bl cs d : Bytes} (s : Shape bl cs d) : Bytes := s.f0 ++ SOH :: s.f1 ++ SOH :: s.B
+def Shape.A {bs bl cs d : Bytes} (s : Shape bs bl cs d) : Bytes := s.f0 ++ SOH :: s.f1 ++ SOH :: s.B
 
-theorem Shape.eqA {bl cs d : Bytes} (s : Shape bl cs d) : d = s.A ++ (cs ++ EQ :: s.vl ++ [SOH]) := s.eq
+theorem Shape.eqA {bs bl cs d : Bytes} (s : Shape bs bl cs d) : d = s.A ++ (cs ++ EQ :: s.vl ++ [SOH]) := s.eq
 
-theorem Shape.vl_len {bl cs d : Bytes} (s : Shape bl cs d) : s.vl.length = 3 := by
+theorem Shape.vl_len {bs bl cs d : Bytes} (s : Shape bs bl cs d) : s.vl.length = 3 := by
   rw [s.sum]; exact cksum_len _
 
-theorem Shape.A_len {bl cs d : Bytes} (s : Shape bl cs d) : s.A.length + (cs.length + 5) = d.length := by
+theorem Shape.A_len {bs bl cs d : Bytes} (s : Shape bs bl cs d) : s.A.length + (cs.length + 5) = d.length := by
   have := congrArg List.length s.eqA
   have h3 := s.vl_len
   simp at this; omega
